@@ -353,6 +353,16 @@ def conclude(pid, level, tier, seed, m, wall):
     known = load_known()
     status = m['status']
     detail = m.get('detail')
+    # (one or two on a loaded machine are reported in the evidence and
+    # tolerated: locks created by the code under test are scheduler-aware,
+    # so a deadlock among them is found by the scheduler itself)
+    if status == 'ok' and m['counters'].get(
+            'schedules_stuck_outside_the_scheduler', 0) > 2:
+        status = 'inconclusive'
+        detail = ('%d schedule(s) did not finish because an actor blocked or '
+                  'span outside the scheduler\'s control: the harness cannot '
+                  'judge them' % m['counters'][
+                      'schedules_stuck_outside_the_scheduler'])
     # required monitor counters: zero deciding events => inconclusive
     if status == 'ok':
         for name, minimum in m['required'].items():
